@@ -90,6 +90,18 @@ def make_monitor(rsp_threshold: T.Optional[int] = None) -> T.Callable[[T.Callabl
                 pass
             return orig_add(self, build)
 
+        def target_names(backend: T.Any) -> T.Dict[str, T.List[str]]:
+            """id -> [name as given, name_prefix, name_suffix] (classifier input only: where an odd character of an
+            output path came from)."""
+            res: T.Dict[str, T.List[str]] = {}
+            try:
+                for tid, t in backend.build.get_targets().items():
+                    res[tid] = [str(getattr(t, 'name', '')), str(getattr(t, 'prefix', '') or ''),
+                                str(getattr(t, 'suffix', '') or '')]
+            except Exception:
+                pass
+            return res
+
         def target_table(backend: T.Any) -> T.Tuple[list, list]:
             targets = []
             tests = []
@@ -213,6 +225,7 @@ def make_monitor(rsp_threshold: T.Optional[int] = None) -> T.Callable[[T.Callabl
                                                       'only_added': sorted(added - ao)[:10]}
                         ev['all_outputs_n'] = len(ao)
                     ev['targets'], ev['tests'] = target_table(self)
+                    ev['target_names'] = target_names(self)
                     try:
                         ev['orphaned_subprojects'] = orphaned_subprojects(self)
                     except Exception as e:
